@@ -124,6 +124,7 @@ func init() {
 			for _, ops := range [][]memOp{nil, {{33, 2, "const"}}, {{31, 3, "const"}, {64, 1, "const"}}, {{80, 4, "const"}, {0, 1, "const"}}} {
 				memDoRW(r, memCase{Mem: "bytes", Blocks: []memBlock{{0, long}}, Ops: ops, MaxA: 12, MaxW: 72})
 			}
+			memTopEnd(r, []memCase{{Mem: "bytes"}})
 			r.Sample(memCase{Mem: "bytes", Blocks: layoutRuns(0b101100, 6), Ops: []memOp{{0, 2, "const"}, {1, 3, "wide"}}, MaxA: 11, MaxW: 3})
 		},
 		Replay: memReplay,
@@ -185,6 +186,7 @@ func init() {
 					memDo(r, memCase{Mem: "overlay", Base: b.kind, Blocks: b.blocks, Pre: b.pre, Ops: append([]memOp{}, ops...), Top: true, MaxA: 7, MaxW: 4, ExtraW: []int{6, 8}})
 				})
 			}
+			memTopEnd(r, []memCase{{Mem: "overlay", Base: "bytes"}, {Mem: "overlay", Base: "sparse"}})
 			r.Sample(memCase{Mem: "overlay", Base: "bytes", Blocks: layoutRuns(0b110011, 6), Ops: []memOp{{1, 3, "sym"}, {2, 1, "const"}}, MaxA: 7, MaxW: 4, ExtraW: []int{6, 8}})
 		},
 		Replay: memReplay,
